@@ -77,6 +77,17 @@ def c05_shape():
 
 def extra_checks(pid, tier):
     try:
+        if pid in ("C13", "C07", "C03"):
+            import vxbounded
+            out = []
+            try:
+                if pid in ("C13", "C03"):
+                    out += vxbounded.c13_json_typerefs(tier)
+                if pid == "C07":
+                    out += vxbounded.c13_json_typerefs(tier) + vxbounded.c07_differential(tier) + vxbounded.c07_one_of(tier) + vxbounded.c07_order(tier)
+            except RuntimeError as e:
+                out.append({"obligation": pid + ".bounded", "status": "undecided", "bounded": True, "detail": str(e)})
+            return out
         if pid == "C15":
             return c15_shape()
         if pid == "C16":
